@@ -42,6 +42,45 @@ CLAIMED.update({
   tech="Rocq/Coq state-machine proofs over message histories + differential execution of the real provider", ref="DESIGN.md 6 (C20)"),
 })
 
+PROC_NOTE = ("Trusted: Coq kernel + vm_compute; Proc.v is a hand-written statement-level model of actor/process.go (Invoke/Start/tryRestart/"
+             "cleanup/flush), the self-directed parts of engine.go and the single-worker run loop, tied to the code by differential execution "
+             "of ~1000 generated scripted scenarios per run through the public API (delivery stream, event stream, pill outcomes, sends, "
+             "registration compared), plus runs of the real engine under the deterministic scheduler and with real goroutines judged by the "
+             "theorems' predicates; user code is a script (function of incarnation and message); theorems that need it carry the explicit premise "
+             "that the Stopped handler itself does not panic (shown necessary by a witness) and that fuel was not exhausted; no axioms.")
+CLAIMED["C14"]["text"] += (" Concurrent part: Coq theorem C14_linearizable over an interleaving model of the mutex-protected ring (any number of threads, programs, "
+  "schedules): results are those of the list queue at linearization points lying between call and return; tied by exhaustive schedule enumeration of "
+  "the real ringbuffer.go under the deterministic scheduler (mutex and atomics shimmed), each history checked linearizable and replayed in the model.")
+CLAIMED.update({
+ "C04": dict(
+  text="Coq theorems C04_lifecycle_word (the delivery stream of every run of the process model is accepted by the lifecycle automaton: per incarnation Initialized, Started, user messages, at most one Stopped, nothing after it, incarnations never interleave), C04_nothing_after_unregister, C04_spawn_returns_after_started, over all scripts, budgets, batches and external operation histories; with C03_start_picks_up_backlog for messages retained before the inbox opens. Tie: scripted scenarios on the real engine compared with the model; sends racing a held-open Started handler; the real engine under the deterministic scheduler.",
+  note=PROC_NOTE, tech="Rocq/Coq trace-automaton invariants over a fuel-recursive model of process.go + differential execution of scripted scenarios", ref="DESIGN.md 0, 6 (C04)"),
+ "C05": dict(
+  text="Coq theorems C05_contained (no panic leaves the actor), C05_panic_then_stopped, C05_restart_shape (Stopped to the failed incarnation, Restarted with counters 1,2,3.., fresh Producer, Initialized), C05_delivered_in_send_order_exactly_once (delivered = prefix of accepted, by position: the backlog behind a failing message goes to the next incarnation in order, once, ahead of later sends; the failing message is not redelivered) and C05_no_silent_loss (sends = delivered + dead-lettered, as a permutation). Tie: as C04, plus real-goroutine runs with senders active during the restart delay.",
+  note=PROC_NOTE, tech="Rocq/Coq conservation laws and restart-shape lemmas by mutual induction on big-step derivations + differential execution", ref="DESIGN.md 0, 6 (C05)"),
+ "C06": dict(
+  text="Coq theorems C06_restarts_bounded (at most MaxRestarts Restarted events, counters consecutive, no premise) and C06_exceeding_stops_cleanly (after MaxRestartsExceeded: inbox stopped, Stopped delivered, unregistered, Stopped event, restart buffer discarded, nothing escapes, nothing delivered afterwards), C06_later_sends_dead_letter. Tie: scripted scenarios with budgets 0-3 and the exhausting panic in first batch, replay, Initialized, Started.",
+  note=PROC_NOTE, tech="Rocq/Coq counting invariant + trace-shape theorem + differential execution", ref="DESIGN.md 0, 6 (C06)"),
+ "C07": dict(
+  text="Coq theorems C07_every_pill_cancelled_exactly_once (every Stop/Poison context created in a run - pills met in a batch, behind another pill, left in the ring, re-buffered after a crash while draining, held in the restart buffer, for an already stopped actor - is cancelled exactly once), C07_cancel_only_after_stopped_and_unregistered, C07_graceful_pill_drains_first, C07_pills_invisible. Tie: scripted scenarios with one or several pills at every batch position, with and without panics; per pill the harness records done / done-before-Stopped / registered-at-done. The proof attempt itself exposed two pill-loss defects (D14, D15), since repaired.",
+  note=PROC_NOTE + " The race between a poisoner's lookup-push-recheck and the target's cleanup is modelled and proved in TreeConc (C08), not here.", tech="Rocq/Coq per-pill counting invariant over big-step derivations + differential execution", ref="DESIGN.md 0, 6 (C07)"),
+ "C13": dict(
+  text="Coq theorem C13_every_delivery_through_chain: every Receive in every run of the process model is reached through the configured middleware chain (no premise). Tie: the harness installs 0-3 logging middlewares and records, per delivery on every path (spawn, user message, stop, poison, crash, restart, budget exceeded), the chain actually traversed and the Context's message and sender.",
+  note=PROC_NOTE, tech="Rocq/Coq Forall-over-trace invariant + differential execution with logging middlewares", ref="DESIGN.md 0, 6 (C13)"),
+ "C08": dict(
+  text="Coq theorems C08_children_first (sequential: any tree, nested induction: every descendant's Stopped, unregistration and parent-map removal precede the ancestor's Stopped and signal), C08_children_listing / C08_parent, and for the interleaving model of cleanup with third-party poisons and crashes: C08_children_first_conc, C08_signal_after_subtree_conc, C08_no_hang (a measure decreases on every step; terminal states have every pill cancelled). Tie: real-engine trees (depth<=3/4, fan-out<=3/4) with global stamps, gated Stopped handlers holding race windows open, Children()/Parent() probes.",
+  note="Trusted: Coq kernel + vm_compute; Tree.v/TreeConc.v hand-written (queues hold pills only; Children() one atomic snapshot); tie by differential execution of generated tree scenarios; gates make the third-party windows deterministic; no axioms.",
+  tech="Rocq/Coq nested induction over rose trees + inductive invariant and termination measure for the concurrent cleanup + gated real-engine scenarios", ref="DESIGN.md 0, 6 (C08)"),
+ "C09": dict(
+  text="Coq theorems C09_send_total, C09_dead_letter_exact, C09_remote_missing_exact (exactly one event with the original target, message and sender, delivered once to every live subscriber) and C09_finitely_many_events (the event-stream work queue terminates for every population of live and stopped subscribers, with an explicit bound). Tie: real-engine send scenarios over four target classes x subscriber populations with a divergence guard.",
+  note="Trusted: Coq kernel + vm_compute; Events.v hand-written model of engine.send/SendLocal/event_stream.go (repaired: D5, D6); the event stream's own PID is never a subscriber; subscribers behind a configured remote are left to C17; no axioms.",
+  tech="Rocq/Coq work-queue termination measure + exactness lemmas + differential execution", ref="DESIGN.md 0, 6 (C09)"),
+ "C12": dict(
+  text="Coq theorem C12_once_between_sub_and_unsub: for every history of Subscribe/Unsubscribe/broadcast in the event stream's serialisation order and every PID value, the events delivered to it are exactly those between a subscription and the next unsubscription by address and id, once, in order; C12_sub_idempotent, C12_unsub_by_value, C12_broadcast_order. Tie: histories over equal PIDs held in distinct objects and 1-4 concurrent broadcasters on the real engine.",
+  note="Trusted as C09. The clause 'lifecycle events are published for every occurrence' is covered by the process-layer checks (C04-C07 compare the event stream).",
+  tech="Rocq/Coq induction over subscription histories + differential execution", ref="DESIGN.md 0, 6 (C12)"),
+})
+
 
 def chk(pid, d):
     return {"property_id": pid, "quick_cmd": "./check run %s --tier quick" % pid,
